@@ -24,6 +24,7 @@ func (P) Generate(g *core.Gen) {
 	genSched(g)
 	genPk(g)
 	genEp(g)
+	genConc(g)
 	if g.Thorough() {
 		for _, l := range bigVectors {
 			kase(g, "vec-big", true, l)
@@ -597,4 +598,38 @@ func kase(g *core.Gen, class string, nontrivial bool, line string) {
 		}
 	}
 	g.Case(class, nontrivial, line)
+}
+
+// ---------------------------------------------------------------- concurrent schedules (exploration)
+
+// genConc: K independent cipher pairs / sessions run CONCURRENTLY in
+// goroutines, each in a different rekey epoch, crossing many rekey boundaries
+// at the same time. Every session is deterministic on its own, so the Lean
+// reference (computed sequentially) must be reproduced under every
+// interleaving: cipher instances must not share mutable state.
+func genConc(g *core.Gen) {
+	r := g.R
+	for i := 0; i < g.N(2, 12); i++ {
+		k := 8 + r.Intn(5)
+		var ss []string
+		for j := 0; j < k; j++ {
+			epoch := j<<20 + r.Intn(1000)
+			if j == 0 {
+				epoch = r.Intn(3)
+			}
+			ss = append(ss, fmt.Sprintf("%s:%d:%d:%d", hx(r.Bytes(32)), epoch, g.N(1200, 6000), r.Intn(256)))
+		}
+		kase(g, "conc-skip", true, "C19 conc skip "+strings.Join(ss, ";"))
+	}
+	for i := 0; i < g.N(1, 4); i++ {
+		var ss []string
+		for j := 0; j < 8; j++ {
+			sec := hx(r.Bytes(32))
+			for d := 0; d < 2; d++ { // both directions of one connection
+				warm := ((2*j+d)%4)*224 + r.Intn(10)
+				ss = append(ss, fmt.Sprintf("%s:%d:%d:%d:%d", sec, d, warm, 224*3+r.Intn(5), r.Intn(256)))
+			}
+		}
+		kase(g, "conc-peer", true, "C19 conc peer "+strings.Join(ss, ";"))
+	}
 }
